@@ -305,6 +305,8 @@ def object_api(case, ctx):
 
 
 def _dense_long_enum(tier, shard, nshards):
+    if tier == "quick":
+        return
     items = [{"n": 30000, "np": 350, "ratio": 8, "seed": 11}, {"n": 52000, "np": 210, "ratio": 8, "seed": 12},
              {"n": 100000, "np": 230, "ratio": 4, "seed": 13}]
     for i, it in enumerate(items):
